@@ -408,8 +408,51 @@ pub fn cache_sweep(c: &Cfg, scenario: u8, n: usize, plen: usize) -> Option<(Stri
     }
 }
 
+/// one object whose in-band FTI announces `nblocks` source blocks (10 symbols of 100 bytes each): a handful of its
+/// packets, at block numbers on both sides of the receiver's pre-allocation limits, must not make the receiver
+/// hold memory in proportion to the ANNOUNCED size. Allowance on top of the per-object bound: a fixed window of
+/// 4096 block descriptors of 48 bytes (the receiver pre-allocates up to 2048 and lets the window grow to 4096).
+pub fn announce_sweep(c: &Cfg, nblocks: u64) -> Option<(String, String)> {
+    flute::verif::clock_reset(0);
+    alloc::start();
+    let r = catch(|| -> Option<(String, String)> {
+        let mut rx = Rx::new(c);
+        let base = alloc::live();
+        let bound = c.cache as isize + 2 * 10 * E as isize + 6 * 1024 + 4096 * 48;
+        let mut sbns: Vec<u64> = vec![0, 1, 5, 2047, 2048, 4095, 4096, 4097, nblocks / 2, nblocks - 1];
+        sbns.retain(|s| *s < nblocks);
+        for (i, sbn) in sbns.iter().enumerate() {
+            let p = alloc::untracked(|| {
+                let mut sp = rfc::Spec::minimal(rfc::FEC_NOCODE, TSI, 1);
+                sp.exts.push(rfc::fti_nocode(nblocks * 10 * E as u64, E as u16, 10));
+                sp.payload_id = rfc::pid(rfc::FEC_NOCODE, *sbn as u32, 0, 0, 8);
+                sp.payload = vec![7u8; E];
+                rfc::encode(&sp)
+            });
+            let _ = rx.rx.push(&endpoint(), &p, rx.now);
+            alloc::untracked(|| drop(p));
+            let held = alloc::live() - base;
+            if held > bound {
+                return Some((
+                    "C17/memory-follows-the-announced-object-size".into(),
+                    format!("object announcing {} source blocks ({} bytes): after {} packet(s) (last one of block {}) the receiver holds {} bytes; allowed {} (object_max_cache_size = {} + two blocks + bookkeeping + a window of 4096 block descriptors)", nblocks, nblocks * 10 * E as u64, i + 1, sbn, held, bound, c.cache),
+                ));
+            }
+        }
+        None
+    });
+    alloc::stop();
+    match r {
+        Ok(v) => v,
+        Err(p) => Some((format!("C17/panic/{}", panic_sig(&p)), format!("panic: {}", p))),
+    }
+}
+
 pub fn replay(v: &serde_json::Value) -> Vec<Violation> {
     let c: Cfg = serde_json::from_value(v["case"]["cfg"].clone()).expect("cfg");
+    if v["check"] == "announce" {
+        return announce_sweep(&c, v["case"]["nblocks"].as_u64().unwrap()).into_iter().map(|(key, what)| Violation { key, what, case: v.clone() }).collect();
+    }
     let r = if v["check"] == "cache" {
         cache_sweep(&c, v["case"]["scenario"].as_u64().unwrap() as u8, v["case"]["n"].as_u64().unwrap() as usize, v["case"]["payload"].as_u64().map(|x| x as usize).unwrap_or(E))
     } else {
@@ -536,7 +579,21 @@ pub fn run(thorough: bool) -> i32 {
             rep.add(Violation { key, what, case: json!({"check": "cache", "case": {"cfg": cfgs[*ci], "scenario": sc, "n": n_sweep_pkts, "payload": pl}}) });
         }
     }
-    let total = n_depth + items.len() + sweeps.len();
+    // (C) objects announcing many source blocks
+    let mut ann = Vec::new();
+    for ci in 0..cfgs.len() {
+        for nb in [2048u64, 2049, 4097, 40_000, 400_000, 4_000_000] {
+            ann.push((ci, nb));
+        }
+    }
+    let ares = par_map(&ann, |_, (ci, nb)| announce_sweep(&cfgs[*ci], *nb));
+    for ((ci, nb), r) in ann.iter().zip(ares) {
+        if let Some((key, what)) = r {
+            rep.add(Violation { key, what, case: json!({"check": "announce", "case": {"cfg": cfgs[*ci], "nblocks": nb}}) });
+        }
+    }
+    rep.cov("announced_size_sweeps", ann.len() as u64);
+    let total = n_depth + items.len() + sweeps.len() + ann.len();
     rep.cov("states", total as u64);
     rep.cov("transitions", (n_depth * depth / 2 + n_pump * 450 + sweeps.len() * n_sweep_pkts) as u64);
     rep.cov("traces_validated_against_impl", total as u64);
